@@ -7,7 +7,7 @@ import ast
 from ..cfg import CFG
 from ..model import AnalysisError, chain, unparse
 from ..report import RuleResult
-from ._c11_sem import Facts, call_name, closer, cm_released_args, falsy_result, field_resets, handlers_around, node_calls, node_of, path_text, protected, reach3, resolve_callee, self_field_meaning, truthy_source
+from ._c11_sem import Facts, call_name, closer, cm_released_args, falsy_result, field_resets, handlers_around, node_calls, node_of, path_text, protected, reach3, ReleaseModel, resolve_callee, self_field_meaning, truthy_source
 
 
 def _is_h5py_file(p, mod, ch) -> bool:
@@ -98,12 +98,16 @@ def _closer(p, fn, handles):
     return closer(fn.node, handles, released_by=lambda c: cm_released_args(p, fn, c))
 
 
-def _releaser(p, fn, call, kind):
-    """Predicate on CFG nodes of fn: the node releases the handle opened by `call` (close() on it, the exit of a
-    with-block over it or over closing(it), the exit of the with-block whose item the call is)."""
-    base = _closer(p, fn, _handles(fn, call, kind))
+def _model(p, fn, g, call, kind, extra=None):
+    """ReleaseModel of the handle opened by `call` in fn: released by close() on it, the exit of a with-block over it or over
+    closing(it), the exit of the with-block whose item the call is, an exit stack it was registered on, `extra(node)`."""
+    recv = _receiver(call, kind)
+    tgt = _target(_stmt_of(fn, call))
     withs = [w for w in ast.walk(fn.node) if isinstance(w, (ast.With, ast.AsyncWith)) and any(any(x is call for x in ast.walk(it.context_expr)) for it in w.items)]
-    return lambda n: base(n) or (n.kind == "withexit" and any(n.stmt is w for w in withs))
+    own_with = lambda n: n.kind == "withexit" and any(n.stmt is w for w in withs)  # noqa: E731
+    both = (lambda n: own_with(n) or extra(n)) if extra is not None else own_with
+    return ReleaseModel(g, fn.node, node_of(g, call), {unparse(recv)} if recv is not None else set(), {tgt.id} if isinstance(tgt, ast.Name) else set(),
+                        released_by=lambda c: cm_released_args(p, fn, c), extra=both)
 
 
 _protected = protected
@@ -144,11 +148,8 @@ def rule_pair(ctx) -> RuleResult:
             closes_h = _closer(p, fn, handles)
             # moving the local into the gateway field hands it to Workspace.close()
             to_gateway = lambda n: isinstance(n.ast, (ast.Assign, ast.AnnAssign)) and _is_gateway(fn, _target(n.ast)) and n.ast.value is not None and closes_h.denotes(n.ast.value)  # noqa: E731
-            closes = lambda n: closes_h(n) or to_gateway(n)  # noqa: E731
             used_as_cm = any(isinstance(w, (ast.With, ast.AsyncWith)) and any(closes_h.releases_item(it.context_expr) for it in w.items) for w in ast.walk(fn.node))
-            after = reach3(g, [m for m, _ in node.succ], avoid=closes)
-            leaks_normal = g.exit in after
-            leaks_exc = g.rexit in after
+            leaks_normal, leaks_exc = _model(p, fn, g, call, kind, extra=to_gateway).leaks()
             if used_as_cm:
                 how = "local used as a context manager"
             elif not leaks_normal and not leaks_exc:
@@ -169,7 +170,7 @@ def rule_pair(ctx) -> RuleResult:
             # (try/finally, or `with closing(workspace)`)
             g = CFG(fn.node)
             node = node_of(g, call)
-            if node is not None and _protected(g, node, _closer(p, fn, handles)):
+            if node is not None and _model(p, fn, g, call, kind).protected(node):
                 how = "yielded inside try/finally: close()"
         if how is None:
             res.inst(f"{fn.qualname}:{call.lineno} {kind} -> release not recognised", ok=False)
@@ -431,14 +432,14 @@ def rule_exit(ctx) -> RuleResult:
     for spec in ("shared/utils.py:fetch_active_workspace", "shared/utils.py:fetch_h5_handle"):
         fn = p.func(spec)
         g = CFG(fn.node)
-        acqs = [(c, k, node_of(g, c), _releaser(p, fn, c, k)) for f, c, k in _acq(ctx) if f.node is fn.node]
+        acqs = [_model(p, fn, g, c, k) for f, c, k in _acq(ctx) if f.node is fn.node]
         for y in [n for n in ast.walk(fn.node) if isinstance(n, ast.Yield)]:
             yn = node_of(g, y)
             if yn is None:
                 raise AnalysisError(f"{fn.qualname}:{y.lineno}: yield not found in the control-flow graph")
             # the handles this helper opened itself that are still open when control is handed to the caller's with-block
-            held = [rel for _c, _k, an, rel in acqs if an is not None and (an is yn or yn in reach3(g, [m for m, _ in an.succ], avoid=rel))]
-            ok = all(_protected(g, yn, rel) for rel in held)
+            held = [m for m in acqs if m.acq is not None and m.held_at(yn)]
+            ok = all(m.protected(yn) for m in held)
             what = "yield inside try/finally" if held else "yield: nothing opened by the helper is held here (no cleanup owed)"
             res.inst(f"{fn.qualname}:{y.lineno} {what}", ok=ok)
             if not ok:
